@@ -52,6 +52,31 @@ func (a *A) backwardCallees(v ssa.Value) map[string]bool {
 			// a config field: not traced further
 		case *ssa.Call:
 			cal := x.Call.StaticCallee()
+			if cal == nil {
+				// a call through a function value (a table of rewrite steps, a method value): the callees
+				// the call graph resolves it to
+				if node := a.CG().Nodes[x.Parent()]; node != nil {
+					for _, e := range node.Out {
+						if e.Site != ssa.CallInstruction(x) || e.Callee == nil || e.Callee.Func == nil {
+							continue
+						}
+						cf := e.Callee.Func
+						out[strings.TrimSuffix(strings.TrimSuffix(cf.Name(), "$bound"), "$thunk")] = true
+						if cf.Blocks != nil {
+							for _, b := range cf.Blocks {
+								if ret, ok := b.Instrs[len(b.Instrs)-1].(*ssa.Return); ok {
+									for _, r := range ret.Results {
+										rec(r, depth+1)
+									}
+								}
+							}
+						}
+					}
+				}
+				for _, arg := range x.Call.Args {
+					rec(arg, depth)
+				}
+			}
 			if cal != nil {
 				out[cal.Name()] = true
 				for _, arg := range x.Call.Args {
@@ -410,6 +435,81 @@ func (a *A) ruleTrailingWildcards(fn *ssa.Function) {
 				}
 			}
 		}
+		// "the rest of the pattern is nothing but '%'" written as a for-all loop: a loop over the pattern
+		// (or its rest) that returns false at the first byte that is not '%' and true when it runs out
+		isPat := func(v ssa.Value) bool {
+			if v == pat {
+				return true
+			}
+			if sl, ok := v.(*ssa.Slice); ok && sl.X == pat {
+				return true
+			}
+			return false
+		}
+		endsIn := func(b *ssa.BasicBlock, want bool) bool {
+			for hops := 0; hops < 4 && b != nil; hops++ {
+				switch last := b.Instrs[len(b.Instrs)-1].(type) {
+				case *ssa.Return:
+					if len(last.Results) == 1 {
+						if k, ok := constBool(last.Results[0]); ok && k == want {
+							return true
+						}
+					}
+					return false
+				case *ssa.Jump:
+					if len(b.Instrs) > 1 {
+						return false
+					}
+					b = b.Succs[0]
+				default:
+					return false
+				}
+			}
+			return false
+		}
+		for _, li := range sccLoops(f) {
+			inside := false
+			for b := range li.Blocks {
+				if excluded[b] {
+					inside = true
+				}
+			}
+			if inside {
+				continue
+			}
+			mismatchFalse, exhaustedTrue := false, false
+			for b := range li.Blocks {
+				iff, ok := b.Instrs[len(b.Instrs)-1].(*ssa.If)
+				if !ok {
+					continue
+				}
+				bo, ok := iff.Cond.(*ssa.BinOp)
+				if !ok {
+					continue
+				}
+				if k, isK := bo.Y.(*ssa.Const); isK && k.Value != nil && k.Value.Kind() == constant.Int && k.Int64() == '%' && (bo.Op == token.EQL || bo.Op == token.NEQ) {
+					if t := TermOf(bo.X, nil); t.Kind == "index" && t.Base.Val != nil && isPat(t.Base.Val) {
+						mis := b.Succs[1]
+						if bo.Op == token.NEQ {
+							mis = b.Succs[0]
+						}
+						if !li.Blocks[mis] && endsIn(mis, false) {
+							mismatchFalse = true
+						}
+					}
+				}
+				if bo.Op == token.LSS {
+					if c, isC := bo.Y.(*ssa.Call); isC {
+						if cc, isLen := isBuiltinCall(c, "len"); isLen && isPat(cc.Args[0]) && !li.Blocks[b.Succs[1]] && endsIn(b.Succs[1], true) {
+							exhaustedTrue = true
+						}
+					}
+				}
+			}
+			if mismatchFalse && exhaustedTrue {
+				skip, accept = true, true
+			}
+		}
 		allInstrs(f, func(in ssa.Instruction) {
 			if c, ok := in.(*ssa.Call); ok {
 				n := calleeFull(&c.Call)
@@ -427,10 +527,33 @@ func (a *A) ruleTrailingWildcards(fn *ssa.Function) {
 			}
 			for _, l := range phiLeaves(ret.Results[0]) {
 				if bo, ok := l.(*ssa.BinOp); ok && bo.Op == token.EQL {
-					for _, side := range []ssa.Value{bo.X, bo.Y} {
+					for i, side := range []ssa.Value{bo.X, bo.Y} {
+						other := []ssa.Value{bo.Y, bo.X}[i]
 						if c, ok := side.(*ssa.Call); ok {
 							if cc, ok := isBuiltinCall(c, "len"); ok && cc.Args[0] == pat {
 								accept = true
+							}
+							// `strings.TrimLeft(pattern[i:], "%") == ""` (or len(...) == 0): the rest of the
+							// pattern is nothing but '%' - skips them and accepts in one
+							trimmed := c
+							if cc, ok := isBuiltinCall(c, "len"); ok {
+								if k, isK := other.(*ssa.Const); isK && k.Value != nil && k.Value.Kind() == constant.Int && k.Int64() == 0 {
+									if inner, isCall := cc.Args[0].(*ssa.Call); isCall {
+										trimmed = inner
+									}
+								}
+							} else if k, isK := other.(*ssa.Const); !(isK && k.Value != nil && k.Value.Kind() == constant.String && constant.StringVal(k.Value) == "") {
+								trimmed = nil
+							}
+							if trimmed != nil {
+								n := calleeFull(&trimmed.Call)
+								if (n == "strings.TrimLeft" || n == "strings.TrimRight" || n == "strings.Trim") && len(trimmed.Call.Args) == 2 {
+									if k, ok := trimmed.Call.Args[1].(*ssa.Const); ok && k.Value != nil && k.Value.Kind() == constant.String && constant.StringVal(k.Value) == "%" {
+										if sl, isSl := trimmed.Call.Args[0].(*ssa.Slice); (isSl && sl.X == pat) || trimmed.Call.Args[0] == pat {
+											skip, accept = true, true
+										}
+									}
+								}
 							}
 						}
 					}
